@@ -178,6 +178,8 @@ def expressible(model):
                 return False
             if v.name in own and own[v.name] is not v:
                 return False
+            if v.producer() is not None:
+                return False  # a graph input / initializer that is also a node output: two definitions of one name (C01 state, not ONNX)
             own[v.name] = v
         for k, v in g.initializers.items():
             if v.const_value is None or k != v.name:
